@@ -53,7 +53,8 @@ def pregen(ctx):
 
 # ---------------------------------------------------------------------------------------------------------------------
 BINOPS = {'add': ('Add', operator.add), 'sub': ('Sub', operator.sub), 'mul': ('Mul', operator.mul),
-          'div': ('Div', operator.truediv), 'floordiv': ('FloorDiv', operator.floordiv), 'mod': ('Mod', operator.mod)}
+          'div': ('Div', operator.truediv), 'floordiv': ('FloorDiv', operator.floordiv), 'mod': ('Mod', operator.mod),
+          'pow': ('Pow', operator.pow)}
 CMPOPS = {'lt': ('CLt', operator.lt), 'le': ('CLe', operator.le), 'gt': ('CGt', operator.gt), 'ge': ('CGe', operator.ge),
           'eq': ('CEq', operator.eq), 'ne': ('CNe', operator.ne)}
 UNOPS = {'neg': ('Neg', operator.neg), 'abs': ('Abs', abs), 'floor': ('Floor', math.floor), 'ceil': ('Ceil', math.ceil),
@@ -118,7 +119,21 @@ def gen_cases(rng, tier, ctx):
     for _ in range(500 * n):
         t = rnd_frac(rng, big=True)
         o = rnd_operand(rng)
-        cases.append({'kind': 'bin', 'op': rng.choice(sorted(BINOPS)), 't': str(t), 'other': o, 'swap': rng.random() < 0.5})
+        cases.append({'kind': 'bin', 'op': rng.choice(sorted(set(BINOPS) - {'pow'})), 't': str(t), 'other': o,
+                      'swap': rng.random() < 0.5})
+    for _ in range(120 * n):   # powers with integer exponents (either side may be the time value)
+        e = rng.randint(-4, 5)
+        base = rnd_frac(rng)
+        if rng.random() < 0.1:
+            base = F(0)
+        if rng.random() < 0.5:   # time ** integer-valued other
+            o = rng.choice([{'ty': 'int', 'v': str(e)}, {'ty': 'frac', 'v': str(e)}, {'ty': 'time', 'v': str(e)},
+                            {'ty': 'float', 'v': float(e).hex()}])
+            cases.append({'kind': 'bin', 'op': 'pow', 't': str(base), 'other': o, 'swap': False})
+        else:                    # other ** integer-valued time
+            o = rng.choice([{'ty': 'int', 'v': str(rng.randint(-5, 5))}, {'ty': 'frac', 'v': str(base)},
+                            {'ty': 'time', 'v': str(base)}])
+            cases.append({'kind': 'bin', 'op': 'pow', 't': str(e), 'other': o, 'swap': True})
     for _ in range(60 * n):   # division by zero stream
         cases.append({'kind': 'bin', 'op': rng.choice(['div', 'floordiv', 'mod']), 't': str(rnd_frac(rng)),
                       'other': rng.choice([{'ty': 'int', 'v': '0'}, {'ty': 'float', 'v': (0.0).hex()},
